@@ -52,6 +52,7 @@ CASE_TIMEOUT = {"quick": 15, "thorough": 40}
 TOL = 1e-9
 IMAG_NEGLIGIBLE = 1e-10
 IMAG_SIGNIFICANT = 1e-6
+MAX_JUDGED = 7  # qubits actually touched (the oracle's register holds only those, see _compact)
 
 
 def classes(tier):
@@ -139,12 +140,28 @@ def _gate_matrix(gate, sub):
     return m
 
 
-def _circuit_matrix(circuit, n, sub=None):
-    """ordered product of the circuit's gates, placed by the reference embedding"""
+def _circuit_matrix(circuit, n, sub=None, qmap=None):
+    """ordered product of the circuit's gates, placed by the reference embedding (qubit q of the circuit is qubit
+    qmap[q] of the judged register)"""
     U = np.eye(2**n, dtype=complex)
     for op in circuit.operations:
-        U = L.embed(_gate_matrix(op.gate, sub), tuple(op.qubit_indices), n) @ U
+        qs = tuple(op.qubit_indices) if qmap is None else tuple(qmap[q] for q in op.qubit_indices)
+        U = L.embed(_gate_matrix(op.gate, sub), qs, n) @ U
     return U
+
+
+def _compact(views, circuits):
+    """The judged register holds exactly the qubits that the operator or any returned circuit touches, in ascending
+    order; every other qubit is idle on both sides of the comparison (identity there), so it is left out.  This makes
+    the oracle independent of how high the qubit indices are (terms on qubits 3 and 11 are judged on 2 qubits).
+    -> (views with relabelled qubits, {qubit: position}, number of judged qubits)"""
+    used = {q for ops, _ in views for q, _o in ops}
+    for c in circuits:
+        for op in c.operations:
+            used.update(int(q) for q in op.qubit_indices)
+    order = sorted(used)
+    qmap = {q: i for i, q in enumerate(order)}
+    return [([(qmap[q], o) for q, o in ops], c) for ops, c in views], qmap, max(1, len(order))
 
 
 def _circuit_width(circuit):
@@ -227,10 +244,13 @@ def _post_term(mon, call):
         mon.violation("term-raises", f"{what} raised {call.exc!r}")
         return
     circuit = call.result
-    n = max(_width([view]), _circuit_width(circuit))
+    [(cops, _c)], qmap, n = _compact([view], [circuit])
+    if n > MAX_JUDGED:
+        mon.out_of_domain(name)
+        return
     for sub, tval in assigns:
-        got = _circuit_matrix(circuit, n, sub)
-        exp = _exp_term(ops, complex(c).real, tval, n)
+        got = _circuit_matrix(circuit, n, sub, qmap)
+        exp = _exp_term(cops, complex(c).real, tval, n)
         d = L.maxdiff(got, exp)
         if not d <= TOL:
             extra = ""
@@ -270,10 +290,13 @@ def _post_sum(mon, call):
         mon.violation("sum-raises", f"{what} raised {call.exc!r}")
         return
     circuit = call.result
-    n = max(_width(views), _circuit_width(circuit), 1)
+    cviews, qmap, n = _compact(views, [circuit])
+    if n > MAX_JUDGED:
+        mon.out_of_domain(name)
+        return
     for sub, tval in assigns:
-        got = _circuit_matrix(circuit, n, sub)
-        exp = _product_formula(views, tval, steps, n)
+        got = _circuit_matrix(circuit, n, sub, qmap)
+        exp = _product_formula(cviews, tval, steps, n)
         d = L.maxdiff(got, exp)
         if not d <= TOL:
             mon.violation(
@@ -336,7 +359,10 @@ def _post_deriv(mon, call):
     if len(circuits) != len(factors):
         mon.violation("derivatives-shape", f"{what}: {len(circuits)} circuits but {len(factors)} factors")
         return
-    n = max([_width(views), 1] + [_circuit_width(c) for c in circuits])
+    views, qmap, n = _compact(views, circuits)
+    if n > MAX_JUDGED:
+        mon.out_of_domain(name)
+        return
     dim = 2**n
     rng = np.random.default_rng(zlib.crc32(what.encode()))
     observables = []
@@ -349,7 +375,7 @@ def _post_deriv(mon, call):
     fsum = sum(abs(f) for f in factors)
     for sub, tval in assigns:
         U, dU = _reference_derivative(views, tval, steps, n)
-        mats = [_circuit_matrix(c, n, sub) for c in circuits]
+        mats = [_circuit_matrix(c, n, sub, qmap) for c in circuits]
         for O in observables:
             onorm = float(np.linalg.norm(O, 2))
             for psi in states:
@@ -477,6 +503,22 @@ def rand_ops(rng, width, kmin=1, kmax=None):
     return {q: rng.choice("XYZ") for q in qs}  # insertion order = random qubit order
 
 
+HIGH = list(range(0, 14)) + [15, 16, 17, 23, 24, 31, 32, 33, 40, 63, 64, 65, 100]
+
+
+def spread(rng, list_of_ops):
+    """the same operators on other qubit labels: one injective relabelling of the qubits 0..w-1 of a case into indices
+    up to 100 (not order preserving), so that gaps, two-digit labels, and indices whose set / dict iteration order
+    is not ascending (8 and above next to smaller ones) occur; the oracle's register holds only the touched qubits"""
+    used = sorted({q for ops in list_of_ops for q in ops})
+    if not used:
+        return list_of_ops
+    pool = HIGH if rng.random() < 0.5 else list(range(0, 13))
+    new = rng.sample(pool, len(used))
+    m = dict(zip(used, new))
+    return [{m[q]: o for q, o in ops.items()} for ops in list_of_ops]
+
+
 def make_term(rng, ops, c, how=None):
     """PauliTerm through one of its three constructors"""
     from orquestra.quantum.operators import PauliTerm
@@ -540,6 +582,9 @@ def run_case(ctx):
         ops = rand_ops(rng, width, kmax=4 if ctx.quick else 5)
         if rng.random() < 0.04:
             ops = {}
+        if rng.random() < 0.35:
+            [ops] = spread(rng, [ops])
+            mon.note("term-spread")
         c = rand_real_coeff(rng)
         if rng.random() < 0.1:
             c = complex(c.real if isinstance(c, complex) else c, rng.choice([1e-12, -1e-12, 1e-13, 0.0]))
@@ -585,7 +630,9 @@ def run_case(ctx):
         other = dict(ops)
         q = rng.choice(sorted(other))
         other[q] = rng.choice([o for o in "XYZ" if o != other[q]])
-        mode = rng.choice(["coeff", "time", "ops", "object", "sum", "deriv"])
+        if rng.random() < 0.25:
+            ops, other = spread(rng, [ops, other])
+        mode = rng.choice(["coeff", "time", "ops", "object", "sum", "deriv", "mutate", "mutate"])
         ctx.describe(f"history {mode} {_fmt_ops(ops)} c={c!r} t={t!r} other={_fmt_ops(other)}", True)
         mon.note(f"history:{mode}")
         if mode == "coeff":
@@ -604,6 +651,30 @@ def run_case(ctx):
             first.operations.clear() if rng.random() < 0.5 else None  # a caller may do what it likes with its result
             time_evolution_for_term(term, t)
             time_evolution_for_term(make_term(rng, ops, c, "dict")[0], t)
+        elif mode == "mutate":
+            # ONE term object whose public coefficient is reassigned between requests (rescaling, a sweep, making it
+            # complex and real again), alone and as a member of a sum; every request is judged on the coefficient the
+            # term has at that moment
+            term = make_term(rng, ops, c, "dict")[0]
+            partner = make_term(rng, other, 0.5, "dict")[0]
+            ham = PauliSum([term, partner])
+            steps = rng.choice([1, 2])
+            tt = abs(t) if abs(t) < 10 else 1.5
+            for cc in (c, 2 * c, c + 0.25, complex(c, 0.5), -c, c * (1 + 3e-6), complex(c, -1e-3), c):
+                term.coefficient = cc
+                which = rng.choice(["term", "term", "sum", "deriv"])
+                try:
+                    if which == "term":
+                        time_evolution_for_term(term, t)
+                    elif which == "sum":
+                        time_evolution(ham, tt, n_steps=steps)
+                    elif isinstance(cc, complex):
+                        time_evolution_for_term(term, t)
+                    else:
+                        time_evolution_derivatives(ham, tt, n_steps=steps)
+                except ValueError:
+                    if not isinstance(cc, complex):
+                        raise
         else:
             steps = rng.choice([1, 2, 3])
             fn = time_evolution if mode == "sum" else time_evolution_derivatives
@@ -647,6 +718,9 @@ def run_case(ctx):
                 term_ops.append({})  # constant term
                 continue
             term_ops.append(rand_ops(rng, width))
+        if rng.random() < 0.3:
+            term_ops = spread(rng, term_ops)
+            mon.note(f"{cls}-spread")
         coeffs = []
         for _ in range(m):
             if deriv:
